@@ -369,7 +369,83 @@ def run_case(cog, case, workdir, timeout=20):
             "output_tail": out[-1500:] if kind not in ("ok", "error") else out[-200:]}
 
 
+# well-formed transformation sequences aimed at ONE object, and multi-package pipelines: the random configuration
+# stream almost never lines two valid passes up on the same target, nor gives a run two inputs
+_Y_TYPES = [{"kind": "scalar", "scalar": {"scalar_kind": "string"}}, {"kind": "scalar", "scalar": {"scalar_kind": "int64"}},
+            {"kind": "array", "array": {"value_type": {"kind": "scalar", "scalar": {"scalar_kind": "string"}}}},
+            {"kind": "map", "map": {"index_type": {"kind": "scalar", "scalar": {"scalar_kind": "string"}},
+                                    "value_type": {"kind": "scalar", "scalar": {"scalar_kind": "bool"}}}},
+            {"kind": "struct", "struct": {"fields": [{"name": "added", "type": {"kind": "scalar", "scalar": {"scalar_kind": "string"}}, "required": True}]}}]
+
+
+def _two_package_docs(rng):
+    alpha = {"$schema": "http://json-schema.org/draft-07/schema#", "$ref": "#/definitions/Root", "definitions": {
+        "Root": _obj({"name": {"type": "string"}, "item": _ref("Alias"), "items": _ref("List")}, ["name"]),
+        "Alias": _ref("Base"), "List": {"type": "array", "items": _ref("Base")},
+        "Base": _obj({"id": {"type": "integer"}, "label": {"type": "string"}}, ["id"])}}
+    beta = {"$schema": "http://json-schema.org/draft-07/schema#", "$ref": "#/definitions/Settings", "definitions": {
+        "Settings": _obj({"enabled": {"type": "boolean"}, "mode": _ref("Mode")}),
+        "Mode": {"enum": ["fast", "slow"]}}}
+    if rng.random() < 0.5:
+        beta["definitions"]["Alias"] = _ref("Settings")
+    if rng.random() < 0.3:
+        alpha["definitions"].pop("List"); alpha["definitions"]["Root"]["properties"].pop("items")
+    return alpha, beta
+
+
+def structured_case(rng):
+    files, transforms = {}, {}
+    two = rng.random() < 0.5
+    if two:
+        a, b = _two_package_docs(rng)
+        files["alpha.json"], files["beta.json"] = json.dumps(a), json.dumps(b)
+        inputs = [{"jsonschema": {"path": "%__config_dir%/alpha.json", "package": "alpha"}},
+                  {"jsonschema": {"path": "%__config_dir%/beta.json", "package": "beta"}}]
+        if rng.random() < 0.5:
+            inputs.reverse()
+        pkg, objs, fields = "alpha", ["Root", "Base", "Alias"], ["name", "item", "id", "label"]
+    else:
+        doc = {"$schema": "http://json-schema.org/draft-07/schema#", "$ref": "#/definitions/Root", "definitions": {
+            "Root": _obj({"name": {"type": "string"}, "child": _ref("Child"), "tags": {"type": "array", "items": {"type": "string"}}}, ["name", "child"]),
+            "Child": _obj({"n": {"type": "integer"}, "flag": {"type": "boolean", "default": True}})}}
+        files["schema.json"] = json.dumps(doc)
+        inputs = [{"jsonschema": {"path": "%__config_dir%/schema.json", "package": "pk"}}]
+        pkg, objs, fields = "pk", ["Root", "Child"], ["name", "child", "n", "flag", "tags"]
+    target = rng.choice(objs)
+    fld = rng.choice(fields)
+    menu = [
+        {"retype_object": {"object": "%s.%s" % (pkg, target), "as": rng.choice(_Y_TYPES)}},
+        {"hint_object": {"object": "%s.%s" % (pkg, target), "hints": {"some_hint": "some_value"}}},
+        {"rename_object": {"from": "%s.%s" % (pkg, target), "to": "Renamed"}},
+        {"duplicate_object": {"object": "%s.%s" % (pkg, target), "as": "%s.Copy" % pkg}},
+        {"add_fields": {"to": "%s.%s" % (pkg, target), "fields": [{"name": "extra", "type": rng.choice(_Y_TYPES), "required": rng.random() < 0.5}]}},
+        {"retype_field": {"field": "%s.%s.%s" % (pkg, target, fld), "as": rng.choice(_Y_TYPES)}},
+        {"fields_set_default": {"defaults": {"%s.%s.%s" % (pkg, target, fld): rng.choice(["x", 1, True])}}},
+        {"fields_set_not_required": {"fields": ["%s.%s.%s" % (pkg, target, fld)]}},
+        {"omit_fields": {"fields": ["%s.%s.%s" % (pkg, target, fld)]}},
+        {"add_object": {"object": "%s.Added" % pkg, "as": rng.choice(_Y_TYPES)}},
+        {"hint_object": {"object": "%s.Added" % pkg, "hints": {"h": "v"}}},
+        {"schema_set_entry_point": {"package": pkg, "entry_point": target}},
+    ]
+    passes = [copy.deepcopy(rng.choice(menu)) for _ in range(rng.randint(0, 4))]
+    if passes:
+        files["passes.yaml"] = json.dumps({"passes": passes})
+        transforms["schemas"] = ["%__config_dir%/passes.yaml"]
+    langs = rng.sample(list(LANG_BLOCKS), rng.randint(1, 3))
+    if two and rng.random() < 0.6 and "java" in LANG_BLOCKS and "java" not in langs:
+        langs.append("java")
+    out = {"directory": "%__config_dir%/out/%l", "types": True, "builders": rng.random() < 0.6, "converters": rng.random() < 0.3,
+           "languages": [LANG_BLOCKS[l] for l in langs if not (l == "go_plain" and "go" in langs)]}
+    pipeline = {"inputs": inputs, "output": out}
+    if transforms:
+        pipeline["transformations"] = transforms
+    files["pipeline.yaml"] = json.dumps(pipeline)
+    return {"files": files, "format": "jsonschema", "mutations": 0, "config": "structured", "languages": langs, "command": "generate"}
+
+
 def make_case(rng, seeds, schemas):
+    if rng.random() < 0.2:
+        return structured_case(rng)
     fmt = rng.choice(["jsonschema", "jsonschema", "openapi", "openapi", "cue"])
     if fmt == "cue" and not seeds["cue"]:
         fmt = "jsonschema"
